@@ -508,6 +508,8 @@ Proof.
     wdns_f_ID, wdns_f_FLAGS, wdns_f_QDCOUNT, wdns_f_ANCOUNT, wdns_f_NSCOUNT, wdns_f_ARCOUNT.
   destruct (wdns_set_field16_ok buf 0 2 (rp_transaction_id r)) as (b1 & E1 & L1); try lia.
   rewrite E1. cbn [obind].
+  destruct (wdns_set_field16_ok b1 2 4 0) as (b1' & E1' & L1'); try lia. rewrite E1'. cbn [obind].
+  clear E1. rename b1 into b0. rename b1' into b1. assert (L1'' : wdns_len b1 = wdns_len buf) by lia. clear L1 L1'. rename L1'' into L1.
   destruct (wdns_field16_ok b1 2 4) as [o1 Eo1]; try lia. rewrite Eo1. cbn [obind].
   match goal with |- context [wdns_set_field16 b1 (2, 4) ?v] =>
     destruct (wdns_set_field16_ok b1 2 4 v) as (b2 & E2 & L2); try lia; rewrite E2; cbn [obind] end.
